@@ -14,28 +14,32 @@ import discretisedfield as df
 PID = "C05"
 RULE = ("(a) Field.grad/div/curl/laplace on 1-4-d meshes with anisotropic dyadic cells, renamed dims, random component "
         "labels (including labels that spell OTHER axes' names), every kind of component-to-axis mapping (default, every "
-        "permutation, empty, non-injective, onto a non-axis), scalar fields with and without a manual label, nvdim equal / "
-        "unequal to ndim, open and periodic directions, with and without invalid cells: result arrays, validity, labels, "
-        "mapping, unit and accept/refuse must equal the rational model (exactly in the exact regime, rel 2^-40 otherwise); "
-        "(b) constructor path and the vdims / vdim_mapping setters (valid and malformed): labels, mapping, reversed mapping "
-        "and accept/refuse must equal the model; (c) __getattr__ and << against the model. Oracle on the real code alone: "
-        "refusals exactly as the property lists them; exactness on polynomials of total degree <=2 (n>=3 per axis, open, "
-        "fully valid) against the analytic operator paired through the mapping; curl(grad)=0 and div(curl)=0 on every fully "
-        "valid mesh; invariance of div and curl under storage permutation + relabelling; vector-Laplacian pairing; "
-        "commutation of all four with rotate90 for every axis pair and k; relabelling transports the mapping position-wise; "
-        "operands untouched. non-trivial = non-constant data and at least one operator accepted, or a meta case")
+        "permutation - exhaustively in 2-d and 3-d -, empty, non-injective, onto a non-axis), scalar fields with and without a "
+        "manual label, nvdim equal / unequal to ndim, open and periodic directions, with and without invalid cells: result "
+        "arrays, validity, labels, mapping, unit and accept/refuse must equal the rational model (exactly in the exact regime, "
+        "absolute bound 2^-30*(max|f|/h + max|f|/h^2) otherwise); (b) one quarter turn Field.rotate90 of the operand (random "
+        "axis pair, also the same axis twice / an unknown axis) against the model's rot90Fld: geometry, n, bc, units, validity, "
+        "labels, mapping, values (scalars exactly, vectors within 2^-40 because the code multiplies by cos/sin(pi/2)); "
+        "(c) constructor path and the vdims / vdim_mapping setters (valid and malformed): labels, mapping, reversed mapping and "
+        "accept/refuse must equal the model; (d) __getattr__ and << against the model. Oracle on the real code alone: refusals "
+        "exactly as the property lists them; exactness on polynomials of total degree <=2 (n>=3 per axis, open, fully valid) "
+        "against the analytic operator paired through the mapping; curl(grad)=0 and div(curl)=0 on every fully valid mesh; "
+        "invariance of div and curl under storage permutation + relabelling; vector-Laplacian pairing; commutation of all four "
+        "with rotate90 for ordered axis pairs and k=1..3 (two random triples per case, all triples on a share of the cases), "
+        "with and without masks and periodic directions; relabelling transports the mapping position-wise; operands untouched. "
+        "non-trivial = non-constant data and at least one operator accepted, or a meta/parts case")
 TRUSTED = ["harness/c05.py, harness/fieldio.py + driver JSON glue",
            "Field.diff modelled by DFV.C04.diff (tied to the code by C04's own correspondence run and re-exercised here through all four operators)",
-           "np.stack / broadcasting / dict update semantics modelled by contract"]
-ASSUMPTIONS = ["exact-regime inputs (dyadic corners, cells 2^-k, small-integer polynomial coefficients): every binary64 operation on the code path is exact, so equality is demanded",
+           "np.stack / np.rot90 / broadcasting / dict update semantics modelled by contract; cos/sin(k*pi/2) modelled by their exact values"]
+ASSUMPTIONS = ["exact-regime inputs (dyadic corners, cells 2^-k, small-integer polynomial coefficients): every binary64 operation on the code path of the four operators is exact, so equality is demanded",
                "component labels are not names of Field attributes (the hasattr test of the vdims setter is not modelled)",
-               "operands of + - << inside the operators live on the same mesh object (mesh equality is modelled as structural equality)"]
-UNPROVED = ["ops_commute_rot90 (DESIGN.md): commutation of the four operators with Field.rotate90 is checked on the real code by the oracle only "
-            "(every ordered axis pair, k=1..3, with and without masks); proved are the stencil reversal lemmas d1_reverse/d2_reverse; a rotate90 model belongs to C12",
+               "operands of + - << inside the operators live on the same mesh object (mesh equality is modelled as structural equality); meshes carry no subregions"]
+UNPROVED = ["ops_commute_rot90 is proved only in the *_rot90_partial form (grad, div, curl, scalar laplace): one quarter turn k=1 about the region centre, fully valid "
+            "fields, both axes of the plane open or both periodic, ndim<=4; other k, masks and the vector Laplacian are checked by the oracle on the real code only",
             "div_perm/curl_perm (DESIGN.md): invariance under permuting the storage order together with the mapping is oracle-only; div_eq/curl_eq state the "
             "pairing per stored component through the mapping and div_relabel proves independence of label spelling",
-            "full-strength rotation claim is FALSE of the code in two input classes: candidate finding D21 (vector Laplacian under a non-positional mapping; "
-            "behaviour stated by theorem laplace_vector_meta) and candidate finding D22 (Mesh.rotate90 keeps bc in place)"]
+            "the full-strength rotation claim is FALSE of the code in two input classes: candidate finding D21 (vector Laplacian under a non-positional mapping; "
+            "behaviour stated by theorem laplace_vector_meta) and candidate finding D22 (Mesh.rotate90 keeps bc in place; hypothesis periodic f a = periodic f b of the theorems)"]
 BUDGET = {"quick": 90, "thorough": 900}
 
 DIMPOOL = ["x", "y", "z", "a", "b", "c", "u", "v", "w", "t"]
